@@ -230,6 +230,8 @@ def graphEngine : Engine := fun inp obs =>
         if grpS != expG then .viol "C07" s!"reference-group tallies {grpS}, expected {expG}"
         else if model != obs then .diff (joinTab model) "model differs from implementation (witness choice or internals)"
         else .ok (if Scan.runHypothesesb r ops then "thm" else "")
+      | ["timeout"] => .viol "C05" "the aggregator did not finish this small repository within 60 s: its work grows with the expanded size, not with the number of distinct objects"
+      | ["skipped"] => .ok "trivial"
       | ["panic"] => .viol "C09,C01,C10" "the aggregator panics on a valid delivery schedule"
       | _ => .bad "observed fields"
     | _, _ => .bad "decode"
